@@ -339,7 +339,7 @@ pub fn world(n_ports: usize, path_trace: bool, prov: Prov, aml: bool) -> WorldSy
     }
 }
 
-fn ann_with(peer: &Peer, seq: u16, tlvs: Vec<Tlv>) -> Ev {
+pub fn ann_with(peer: &Peer, seq: u16, tlvs: Vec<Tlv>) -> Ev {
     Ev::Raw(0, hex(&rc::encode(&peer.announce_msg(seq).with_tlvs(tlvs))), false)
 }
 
@@ -351,7 +351,7 @@ fn path_tlv(entries: &[[u8; 8]]) -> Tlv {
     Tlv { typ: rc::TLV_PATH_TRACE, value: v }
 }
 
-fn tann_all(n_ports: usize, times: usize) -> Vec<Ev> {
+pub fn tann_all(n_ports: usize, times: usize) -> Vec<Ev> {
     let mut v = vec![];
     for _ in 0..times {
         for q in 1..n_ports {
